@@ -40,7 +40,7 @@ FRAGS = ["'", '"', "`", "\\", "$", "$(", ")", "(", "${", "}", "{", "|", "||", "&
          "0.5", "!", "!!", "%", "[", "]", "?", "\t", "alias", "alias Qz='vp_argv'", "Qz", "export", "cd", "unset", "read Qv <<< a",
          "source", "history", "jobs", "fg", "bg", "set -e", "ulimit -n", "vox", "cinfo", "minfd", "exec", "\\\n", "\\$", "\\|",
          "$(vp_out K)", "`vp_out K`", "$(vp_out >)", "$(", "$()", "``", "1 + ", "(", "((", "))", "{,}", "{..}", "{1..}", "{1..9999999999}",
-         "{1..3..0}", "{-5..5..2}", "{2147483646..2147483647}", "{-2147483647..-2147483648}", "{1..3..2147483647}", "{2147483640..2147483647..5}", "a" * 50, "'" * 3, "\\" * 3, "🙂", "́", "​", "\u3000", "\u00a0", "\u2003", "\\\u3000", "\\\u00a0"]
+         "alias Qr='vp_argv $(Qr)' ; Qr", "alias Qs='Qs' ; Qs", "{1..3..0}", "{-5..5..2}", "{2147483646..2147483647}", "{-2147483647..-2147483648}", "{1..3..2147483647}", "{2147483640..2147483647..5}", "a" * 50, "'" * 3, "\\" * 3, "🙂", "́", "​", "\u3000", "\u00a0", "\u2003", "\\\u3000", "\\\u00a0"]
 BANNED_WORDS = ("exit", "exec ")
 
 
@@ -101,7 +101,9 @@ def seeds_for(rng):
             args.append((t, rng.choice(c01.styles_for(t))))
         out.append(c01.render(args, rng.choice(c01.FOLLOWERS)))
     out += ["vp_argv $(vp_out K) `vp_out K`", "A=1 B=2 vp_argv \"$A\" ${B}", "vp_st src 10 1 | vp_st flt 1 | vp_st snk > f1 2>&1",
-            "1 + 2 * (3 - 4) / 5 ^ 2", "vp_argv {a,b}{1..3} ~ *", "alias Qz='vp_argv -l' ; Qz x | vp_b", "vp_io A <<< word ; vp_argv $?"]
+            "1 + 2 * (3 - 4) / 5 ^ 2", "vp_argv {a,b}{1..3} ~ *", "alias Qz='vp_argv -l' ; Qz x | vp_b", "vp_io A <<< word ; vp_argv $?",
+            # an alias whose value substitutes the alias itself: substitutions nest through the shell's own stack
+            "alias Qr='vp_argv $(Qr)' ; Qr", "alias Qt='vp_argv `Qt` x' ; Qt | vp_b"]
     return out
 
 
@@ -233,10 +235,56 @@ def judge_pty(case):
         s.close()
 
 
+def judge_interrupt(case):
+    """Ctrl-C typed while the shell itself is at work - a builtin whose output is larger than what the terminal takes while
+    nobody reads it - must not end the shell: the next command is served"""
+    sb = _sb
+    sb.reset_log()
+    sb.clean_work()
+    res = {"what": case["what"], "delay": case["delay"]}
+    with open(os.path.join(sb.root, "al.sh"), "w") as f:
+        for i in range(2500):
+            f.write("alias zz%04d='vp_argv a-long-value-that-fills-the-terminal-buffer-quickly %d'\n" % (i, i))
+    s = ptydrv.PtySession(sb, env_extra={"VP_AL": sb.root}, budget=0)
+    try:
+        ok, _ = s.wait_prompt(15)
+        if not ok:
+            return ("inconclusive", "no prompt", res)
+        ok, _ = s.line("source $VP_AL/al.sh", 120)
+        if not ok:
+            return ("inconclusive", "the definitions were not read in time", res)
+        s.send({"alias-listing": "alias\r", "listing-twice": "alias ; alias\r", "listing-after-another-command": "vp_argv pre ; alias\r"}[case["what"]])
+        time.sleep(case["delay"])          # the shell is blocked writing: nothing is read from the terminal meanwhile
+        s.send("\x03")
+        time.sleep(0.3)
+        s.drain(0.2, 30.0)
+        if not s.alive():
+            st = s.exited
+            res["wait_status"] = st
+            how = "killed-by-signal-%d" % os.WTERMSIG(st) if st is not None and st >= 0 and os.WIFSIGNALED(st) else "exited"
+            return ("violated", "C05:pty:ctrl-c-while-a-builtin-prints-ends-the-shell:%s" % how, res)
+        for attempt in range(3):
+            s.send("\x15")
+            s.send("vp_argv SENTINEL%d\r" % attempt)
+            t0 = time.time()
+            while time.time() - t0 < 6:
+                s.drain(0.05, 0.3)
+                if any(x["name"] == "vp_argv" and x["argv"][1:2] == ["SENTINEL%d" % attempt] for x in sb.records()):
+                    return ("held", None, res)
+                if not s.alive():
+                    return ("violated", "C05:pty:ctrl-c-while-a-builtin-prints-ends-the-shell:later", res)
+        res["tail"] = s.all[-400:].decode("utf-8", "replace")
+        return ("violated", "C05:pty:shell-does-not-serve-the-next-command:after-ctrl-c-during-a-builtin", res)
+    finally:
+        s.close()
+
+
 def _work(case):
     try:
         if case["kind"] == "pty":
             return judge_pty(case)
+        if case["kind"] == "pty-interrupt":
+            return judge_interrupt(case)
         return judge_line(case)
     except Exception as e:
         import traceback
@@ -257,7 +305,7 @@ def run(tier, seed):
                 "Command::from_tokens, CommandLine::from_line (+ first-word lookups), do_expansion, is_arithmetic/run_calculator, "
                 "script grammar, expand_args, trim_multiline_prompts, extend_bangbang, highlight, escaped_word_start + the slice "
                 "lineread takes, with X='$X' Y='$Z' Z='$Y'; layer 2: grammar/mutation generated lines through -c, script+sentinel, "
-                "non-tty stdin on two builds; layer 3: random key sequences in a pty followed by a sentinel command.  "
+                "non-tty stdin on two builds; layer 3: random key sequences in a pty followed by a sentinel command, and Ctrl-C typed while a builtin is printing more than the terminal takes.  "
                 "Non-trivial: every case (all contain special characters); distinct by input." % ((6, 5) if thorough else (5, 4)))
     rep.assumptions = ["a rewrite loop exceeding its step budget (2000/3000 iterations per command) is non-termination",
                        "a watchdog hit is a violation only with a /proc diagnosis (spinning, or all processes asleep)",
@@ -314,6 +362,9 @@ def run(tier, seed):
                       "binary": rng.choice(["debug", "debug", "nochecks"] + (["asan", "asan"] if thorough else []))})
     for _ in range(1000 if thorough else 96):
         cases.append({"kind": "pty", "seed": rng.randrange(1 << 30)})
+    for _ in range(24 if thorough else 4):
+        cases.append({"kind": "pty-interrupt", "what": rng.choice(["alias-listing", "listing-twice", "listing-after-another-command"]),
+                      "delay": rng.choice([0.3, 0.6, 1.0])})
     asan = common.build_cicada("asan") if thorough else None
     rep.extra["sanitizer_pass"] = ("layer-2 lines also run on an AddressSanitizer build (nightly -Zsanitizer=address), "
                                    "halt_on_error=1: %d lines" % sum(1 for c in cases if c.get("binary") == "asan")) if thorough else "thorough tier only"
